@@ -128,7 +128,7 @@ pub fn run(ctx: &mut Ctx) {
     }
     ctx.exhaustive.insert("all_bitmaps_w*h_le_16_dark_topleft".into(), true);
     // encoder bitmaps of all 48 sizes
-    let per_size = ctx.budget(16 * 6, 16 * 400);
+    let per_size = ctx.budget(16 * 30, 16 * 600);
     for r in CAT.iter() {
         for _ in 0..per_size {
             let cw = ctx.rng.bytes(r.total());
@@ -142,7 +142,24 @@ pub fn run(ctx: &mut Ctx) {
             }
         }
     }
-    let n = ctx.budget(60_000, 6_000_000);
+    // large bitmaps (the helpers are advertised for other symbologies too): dimensions up to 700
+    let nl = ctx.budget(16 * 6, 16 * 60);
+    for i in 0..nl {
+        let (w, h) = match i % 4 {
+            0 => (ctx.rng.range(151, 300), ctx.rng.range(151, 300)),
+            1 => (ctx.rng.range(300, 700), ctx.rng.range(2, 60)),
+            2 => (ctx.rng.range(2, 60), ctx.rng.range(300, 700)),
+            _ => (ctx.rng.range(177, 260), ctx.rng.range(177, 260)),
+        };
+        let dens = *ctx.rng.pick(&[5usize, 30, 50, 70, 95]);
+        let mut bits: Vec<bool> = (0..w * h).map(|_| ctx.rng.chance(dens, 100)).collect();
+        bits[0] = true;
+        // make sure the far corner region is populated (indices with large row*width products)
+        bits[w * h - 1] = true;
+        bits[w * h - 2] = i % 2 == 0;
+        eval(ctx, &bits, w, "large_bitmap");
+    }
+    let n = ctx.budget(400_000, 8_000_000);
     for i in 0..n {
         let maxd = if i % 50 == 0 { 150 } else { 40 };
         let (bits, w, _h, tag) = bitmaps::gen(&mut ctx.rng, maxd, i % 10 != 0);
